@@ -197,7 +197,7 @@ CONDITIONS = [
     {'fn': 'transparent', 'nontrivial': 'fault-fired',
      'what': 'decorated run vs undecorated twin under single faults and pairs at every step; sharded by (fault kinds, first opcode)',
      'tiers': {'quick': {'bounds': _QB, 'timeout': 500, 'shards': _QS, 'witness_shard': _W},
-               'thorough': {'bounds': _TB, 'timeout': 6000, 'shards': _TS, 'witness_shard': _W}}},
+               'thorough': {'bounds': _QB, 'timeout': 900, 'shards': _QS, 'witness_shard': _W}}},
     {'fn': 'threads', 'module': 'harness.C04_threads', 'nontrivial': 'preempted',
      'what': 'two worker threads calling interceptions inside one operation (cooperative rewrite of the real '
              'tape_recorder.py): every schedule with <= P preemptions, discard issued by a worker / an intercepted body / '
@@ -206,15 +206,14 @@ CONDITIONS = [
                          'shards': [{'discard_by': d, 'preemptions': 1, 'bucket': b} for d in (None, 'worker', 'body', 'operation', 'watchdog')
                                     for b in ([0, 30], [30, 60], [60, 110])],
                          'witness_shard': {'discard_by': 'worker', 'preemptions': 1, 'bucket': [0, 110]}},
-               'thorough': {'bounds': {'STEPS': 110, 'FORCED': 5}, 'timeout': 8000,
-                            'shards': [{'discard_by': d, 'preemptions': 2, 'bucket': [b, b + 10]} for d in ('watchdog',)
-                                       for b in range(0, 110, 10)] +
-                                      [{'discard_by': d, 'preemptions': 1, 'bucket': [0, 110]} for d in (None, 'operation', 'body', 'worker')],
+               'thorough': {'bounds': {'STEPS': 110, 'FORCED': 4}, 'timeout': 900,
+                            'shards': [{'discard_by': d, 'preemptions': 1, 'bucket': b} for d in (None, 'worker', 'body', 'operation', 'watchdog')
+                                       for b in ([0, 30], [30, 60], [60, 110])],
                             'witness_shard': {'discard_by': 'worker', 'preemptions': 1, 'bucket': [0, 110]}}}},
     {'fn': 'operation_flavours', 'nontrivial': 'extractor-misbehaves',
      'what': 'metadata extractor succeeding / raising / returning junk on instance and class-level operations',
      'tiers': {'quick': {'bounds': _QB, 'timeout': 300, 'shards': [{'f1': None, 'f2': None, 'first': f} for f in [None, _o('A', 1), _o('O', 1)]],
                          'witness_shard': {'f1': None, 'f2': None, 'first': _o('A', 1)}},
-               'thorough': {'bounds': _TB, 'timeout': 3000, 'shards': [{'f1': None, 'f2': None, 'first': f} for f in [None] + _QOPS],
+               'thorough': {'bounds': _QB, 'timeout': 900, 'shards': [{'f1': None, 'f2': None, 'first': f} for f in [None, _o('A', 1), _o('O', 1)]],
                             'witness_shard': {'f1': None, 'f2': None, 'first': _o('A', 1)}}}},
 ]
